@@ -22,12 +22,13 @@ import (
 func init() {
 	ev.Register(&ev.Spec{
 		ID: "C20", Level: "exploration",
-		Rule:    "(a) localfs (dev, ino) -> QID path mapping evaluated through a verif hook on pairs of every class (compact, high device bits, large major/minor, ino >= 2^39, field boundaries +-1), each pair looked up repeatedly, sequentially and from 8 goroutines: stability and injectivity via hash maps; real files of every creatable type through localfs for QID type vs mode; (b) qids.Mapper and composefs/staticfs served to concurrent clients under the race detector; (c) FileMode <-> os.FileMode round trip for 7 types x 4096 permission values, both directions (exhaustive). Non-trivial: pair outside the all-zero case / mode with a type; distinct by (class) resp. value.",
-		Assume:  []string{"race detector enabled in both tiers for this property", "the verif hook calls the real localToQid"},
-		Shards:  shards(4, 8),
-		Race:    raceIn("quick", "thorough"),
-		Timeout: timeout(6*time.Minute, 40*time.Minute),
-		Run:     runC20,
+		Rule:            "(a) localfs (dev, ino) -> QID path mapping evaluated through a verif hook on pairs of every class (compact, high device bits, large major/minor, ino >= 2^39, field boundaries +-1), each pair looked up repeatedly, sequentially and from 8 goroutines: stability and injectivity via hash maps; real files of every creatable type through localfs for QID type vs mode; (b) qids.Mapper and composefs/staticfs served to concurrent clients under the race detector; (c) FileMode <-> os.FileMode round trip for 7 types x 4096 permission values, both directions (exhaustive). Non-trivial: pair outside the all-zero case / mode with a type; distinct by (class) resp. value.",
+		Assume:          []string{"race detector enabled in both tiers for this property", "the verif hook calls the real localToQid"},
+		Shards:          shards(4, 8),
+		Race:            raceIn("quick", "thorough"),
+		RaceIsViolation: true,
+		Timeout:         timeout(6*time.Minute, 40*time.Minute),
+		Run:             runC20,
 	})
 }
 
